@@ -39,6 +39,7 @@ RULE = ("text stream: every truncation of hand-written documents and of tests/fi
         "quotes, line ends, NUL, astral, lone surrogates, 5000 characters) in every request string that reaches an error message: rejected variable values "
         "(scalars, enums, lists, input objects, keys), operation names, literals echoed by validation, variable defaults, resolver messages and extensions; "
         "non-finite floats bare and nested in lists / objects at custom-scalar positions, as variables (echoed) and as resolver results; "
+        "application subclasses of ResolverError with __slots__, class-level or property `extensions`, their own constructor signature, __copy__ overrides; "
         "resolver error messages that are not str (wrapped exceptions, numbers, None, bytes, lists); "
         "ResolverErrors raised while a value is COMPLETED (resolve_type of abstract types, lazy iterables failing mid-iteration, custom serialisers) "
         "at object/list/leaf positions; @skip/@include on fields, inline fragments and spreads whose condition only fails at execution time "
@@ -177,8 +178,12 @@ def abs_err(e):
              "path": list(e.path) if e.path is not None else None}
         if isinstance(e, ResolverError):
             try:
-                d["ext"] = O.enc(dict(e.extensions)) if e.extensions is not None else None
-            except (TypeError, ValueError):     # extensions that are not a Mapping (outside the contract; `bad-extensions` worlds)
+                if type(e).to_dict is not ResolverError.to_dict:
+                    # an application subclass rendering its own dictionary: its extensions are what IT renders
+                    d["ext"] = O.enc(e.to_dict().get("extensions"))
+                else:
+                    d["ext"] = O.enc(dict(e.extensions)) if e.extensions is not None else None
+            except (TypeError, ValueError, AttributeError):     # extensions that are not a Mapping (outside the contract; `bad-extensions` worlds)
                 d["ext"] = {"$nonjson": type(e.extensions).__name__}
         return d
     if isinstance(e, ExecutionError):
@@ -499,6 +504,17 @@ def check_case(ctx, case, pending):
             sig = "syntax-error-position-out-of-range"
         if sig == "non-finite-float-in-response":
             sig += ":" + nonfinite_position(schema, resp)
+        if sig == "response-raises:AttributeError" and world is not None:
+            kinds = set()
+            for e in res.errors:
+                try:
+                    e.to_dict()
+                except AttributeError:
+                    kinds.add(type(e).__name__)
+                except Exception:  # noqa
+                    pass
+            if kinds:
+                sig = "error-subclass-state-lost:" + sorted(kinds)[0]     # the executor's copy of the error lost attributes of the subclass
         if sig == "response-raises:TypeError" and "returned non-string" in d and world is not None and world.injected_nonstr:
             sig = "resolver-error-message-not-str"      # ResolverError(<exception / int / None>): the message is not coerced
         fail(sig, "response is not strict JSON / not serialisable: " + d)
@@ -558,7 +574,7 @@ def check_case(ctx, case, pending):
                 e = by_path[tuple(p)][0]
                 want_ext = O.enc(o[2]) if o[2] else None
                 if O.enc(e.get("extensions")) != want_ext:
-                    fail("resolver-extensions-not-passed-through", "extensions of the raised ResolverError do not reach the response error",
+                    fail("resolver-extensions-not-passed-through" + (":" + o[6] if o[3] == 6 else ""), "extensions of the raised ResolverError do not reach the response error",
                          {"path": list(p), "raised": want_ext, "error": O.enc(e)})
                 if "message" in e and e["message"] != o[1]:
                     fail("resolver-message-not-passed-through", "message of the raised ResolverError does not reach the response error",
@@ -571,7 +587,8 @@ def check_case(ctx, case, pending):
     if world is not None:
         for _p, _t, _n, o in world.calls:
             if o[0] == "raised":
-                ctx.stat("raised:" + ["fresh", "subclass", "shared-in-request", "bogus-path", "module-constant-pre-rendered", "rendered-by-resolver"][o[3]])
+                ctx.stat("raised:" + ["fresh", "subclass", "shared-in-request", "bogus-path", "module-constant-pre-rendered", "rendered-by-resolver", "app-class"][o[3]]
+                         + (":" + o[6] if o[3] == 6 else ""))
                 ctx.stat("extensions:" + (type(o[2]).__name__ if o[2] is not None else "none"))
     # a server decorating the errors of the response it is about to send must not reach the resolver's error objects:
     # later requests (module-level constant errors live across requests) are checked against the PRISTINE extensions
